@@ -106,7 +106,23 @@ def run_model(lines, timeout=1800):
     return out
 
 
-def run_impl(case_lines, root, per_line_timeout=20.0):
+MAX_DRIVER_FAILURES = 6     # after that many crashes/hangs the remaining cases of a run are not evaluated
+
+
+def _limit_driver():
+    import resource
+    try:
+        resource.setrlimit(resource.RLIMIT_AS, (4 << 30, 4 << 30))
+    except Exception:
+        pass
+    try:
+        import ctypes
+        ctypes.CDLL("libc.so.6").prctl(1, 9)     # PR_SET_PDEATHSIG = SIGKILL: never outlive the check
+    except Exception:
+        pass
+
+
+def run_impl(case_lines, root, per_line_timeout=10.0):
     """answers of the implementation driver.
 
     `case_lines` is a list of cases, each a list of request lines.  A crash (abort, stack
@@ -115,11 +131,16 @@ def run_impl(case_lines, root, per_line_timeout=20.0):
     import select
     answers = [[None] * len(c) for c in case_lines]
     ci = 0
+    failures = 0
     while ci < len(case_lines):
+        if failures >= MAX_DRIVER_FAILURES:
+            for i in range(ci, len(case_lines)):
+                answers[i] = ["abort not-evaluated-after-repeated-driver-failures"] * len(case_lines[i])
+            break
         flat = [(i, j) for i in range(ci, len(case_lines)) for j in range(len(case_lines[i]))]
         if not flat:
             break
-        proc = subprocess.Popen([IMPL_BIN], stdin=subprocess.PIPE, stdout=subprocess.PIPE, stderr=subprocess.DEVNULL)
+        proc = subprocess.Popen([IMPL_BIN], stdin=subprocess.PIPE, stdout=subprocess.PIPE, stderr=subprocess.DEVNULL, preexec_fn=_limit_driver)
         reqs = ["ROOT " + hx(root)] + [case_lines[i][j] for (i, j) in flat]
 
         def feed(proc=proc, reqs=reqs):
@@ -157,6 +178,7 @@ def run_impl(case_lines, root, per_line_timeout=20.0):
         if died is None:
             proc.wait()
             break
+        failures += 1
         k = max(n - 1, 0)          # index in flat of the request that was never answered
         i, j = flat[k]
         answers[i][j] = "abort " + died
@@ -365,6 +387,9 @@ def run_cases(cases, root):
         k += len(c.lines)
         ia = impl[ci]
         problems = []
+        if any(a.startswith("abort not-evaluated") for a in ia):
+            res.append((c, ma, ia, []))
+            continue
         for j, ln in enumerate(c.lines):
             if ln.startswith(SETUP_PREFIXES):
                 continue
